@@ -124,6 +124,10 @@ mv!(c18_mv_empty_s1, [], 1, 4, false);
 mv!(c18_mv_1leaf_s0, [(true, 0)], 0, 4, false);
 mv!(c18_mv_1leaf_s2, [(true, 0)], 2, 4, false);
 mv!(c18_mv_1term_s1, [(false, 3)], 1, 4, false);
+// terminators shallower than the sibling list (claimed depth may exceed the position's depth)
+mv!(c18_mv_1term1_s3, [(false, 1)], 3, 4, false);
+mv!(c18_mv_1term0_s2, [(false, 0)], 2, 4, false);
+mv!(c18_mv_1term2_s4, [(false, 2)], 4, 4, false);
 // two / three paths: claimed depths range over a menu of boundary values (concrete per run,
 // all combinations), everything else symbolic.
 pub const DEPTH_MENU: [usize; 8] = [0, 1, 2, 3, 5, 256, 257, usize::MAX];
